@@ -26,6 +26,7 @@ func TestVerifC04(t *testing.T) {
 		c04Part("send-big"),
 		c04Part("send-rsa"),
 		c04Part("framer"),
+		c04Part("framer-conn"),
 		c04Part("recv"),
 		c04Part("tune"),
 		c04Part("loop"),
@@ -52,6 +53,11 @@ func c04Config(name string, thorough bool) *c04Cfg {
 		}
 	case "framer":
 		c = &c04Cfg{mode: "framer", cell: 50, sndS: 2, sndC: 3, rcvS: 4, rcvC: 6, maxS: 4, maxC: 6, depth: 6}
+		if thorough {
+			c.depth = 7
+		}
+	case "framer-conn": // the connection limit is the tighter one: the connection is blocked again after every MAX_DATA
+		c = &c04Cfg{mode: "framer", cell: 50, sndS: 3, sndC: 2, rcvS: 4, rcvC: 6, maxS: 4, maxC: 6, depth: 6}
 		if thorough {
 			c.depth = 7
 		}
@@ -107,7 +113,7 @@ func c04Rule(c *c04Cfg) string {
 	case "sendbig":
 		return base + fmt.Sprintf("as part send (small Write: 1 cell only), plus Write(%d bytes) > frame buffer, run in a goroutine that stays blocked across operations until enough was popped; oracle: sender credit ledger", c.bigLen)
 	case "framer":
-		return base + "alphabet: Write(1|3 cells), real framer.Append(128|200|1200 bytes) as the packet packer calls it, ack/lose, MAX_STREAM_DATA / MAX_DATA (stale, duplicate, reordered), Close; oracle: sender credit ledger on the STREAM, STREAM_DATA_BLOCKED and DATA_BLOCKED frames the framer returns"
+		return base + "alphabet: Write(1|3 cells), real framer.Append(128|200|1200 bytes) as the packet packer calls it, ack/lose, loss of a packet that carried a *_BLOCKED frame (the frame object the framer handed out goes on the wire again, as from the retransmission queue), MAX_STREAM_DATA / MAX_DATA (stale, duplicate, reordered), Close; oracle: sender credit ledger on the STREAM, STREAM_DATA_BLOCKED and DATA_BLOCKED frames the framer returns"
 	case "recv":
 		return base + "alphabet per stream: STREAM frame (next 1|2 cells, exactly up to the advertised stream limit, 1 byte beyond it, exactly up to / 1 byte beyond the connection limit, gap, old duplicate, each optionally FIN, empty FIN), RESET_STREAM (final = received | +1 cell | beyond the limit) and RESET_STREAM_AT (reliable size 1 cell) incl. duplicates, Read(1 byte|1 cell|all), CancelRead, getControlFrame, connection GetWindowUpdate; reads only issued when the model says they cannot block; oracle: receiver ledger"
 	case "tune":
@@ -191,6 +197,9 @@ func (w *c04World) opsSend() []explore.Op {
 	}
 	for i := range w.inflight {
 		ops = append(ops, explore.Op{N: "lose", A: i})
+	}
+	for i := range w.ctrlHeld {
+		ops = append(ops, explore.Op{N: "rtxctrl", A: i})
 	}
 	for s := 0; s < 2; s++ {
 		if !w.closedW[s] && !w.cancelW[s] && w.pending[s] == nil {
@@ -459,6 +468,8 @@ func (w *c04World) apply(op explore.Op) *explore.Fail {
 		return w.applyPop(op.A, op.B)
 	case "packet":
 		return w.applyPacket(op.A)
+	case "rtxctrl":
+		return w.applyRetransmitCtrl(op.A)
 	case "msd":
 		w.applyMaxStreamData(op.A, op.B*c)
 	case "md":
